@@ -4,23 +4,25 @@ package ecmascript
 
 import (
 	"context"
+	"encoding/json"
 
 	"github.com/Comcast/sheens/core"
 	"github.com/Comcast/sheens/match"
 	"github.com/Comcast/sheens/zzverif/verif"
 )
 
-// rtState: what a host gets back after writing the state out as JSON and reading it in again.
+// rtState: what a host gets back after writing the state out as JSON and reading it in again
+// (json.Marshal / json.Unmarshal of the core.State value itself, so its field tags take part).
 func rtState(s *core.State) (*core.State, bool) {
-	x, err := core.Canonicalize(map[string]interface{}(s.Bs))
+	js, err := json.Marshal(s)
 	if err != nil {
 		return nil, false
 	}
-	m, is := x.(map[string]interface{})
-	if !is {
+	var back core.State
+	if err = json.Unmarshal(js, &back); err != nil {
 		return nil, false
 	}
-	return &core.State{NodeName: s.NodeName, Bs: match.Bindings(m)}, true
+	return &back, true
 }
 
 // what the action binds (JSON-representable values: integers, fractions, arrays, objects, null)
@@ -33,6 +35,7 @@ var c09Returns = []string{
 	`return {"?z":null,"?s":"str"};`,
 	`return {"votes":{"alice":2,"bob":1},"n":3,"xs":[2,5]};`,
 	`throw "boom";`,
+	`return {};`,
 }
 
 // what the next node's branch asks of the message, re-using the bound values as sub-patterns
